@@ -98,9 +98,15 @@ int verif_snprintf(char *buf, size_t n, const char *fmt, ...)
  *   - payload arrays (packet data, cached answers): bounds asserted, the member becomes arbitrary
  *     (over-approximation: also bytes outside the copied range);
  * everything else: bounds asserted, destination range arbitrary, one ghost byte exact. */
-struct verif_pay { char d[64 * 1024]; };
-struct verif_ans { char d[4096]; };
 extern struct tun_user slot;
+/* the payload of a packet buffer becomes arbitrary: typed struct assignment, scalar fields kept */
+static void verif_any_payload(struct packet *p)
+{
+	struct packet np;                    /* np.data is arbitrary */
+	np.len = p->len; np.sentlen = p->sentlen; np.offset = p->offset; np.seqno = p->seqno; np.fragment = p->fragment;
+	*p = np;
+}
+#define ANY_ROW(k) { char nd_[4096]; __CPROVER_array_replace(slot.dnscache_answer[k], nd_); }
 static void verif_addr_copy(struct sockaddr_storage *member, const void *src, size_t n)
 {
 	struct sockaddr_storage t;            /* arbitrary */
@@ -127,16 +133,16 @@ void *verif_memcpy_t(void *dst, const void *src, size_t n)
 		else if (off == offsetof(struct tun_user, q.from2)) verif_addr_copy(&slot.q.from2, src, n);
 		else if (off == offsetof(struct tun_user, q_sendrealsoon.from)) verif_addr_copy(&slot.q_sendrealsoon.from, src, n);
 		else if (off == offsetof(struct tun_user, q_sendrealsoon.from2)) verif_addr_copy(&slot.q_sendrealsoon.from2, src, n);
-		else if (IN_MEMBER(off, inpacket.data)) { struct verif_pay a; *(struct verif_pay *)slot.inpacket.data = a; }
-		else if (IN_MEMBER(off, outpacket.data)) { struct verif_pay a; *(struct verif_pay *)slot.outpacket.data = a; }
-		else if (IN_MEMBER(off, outpacketq[0].data)) { struct verif_pay a; *(struct verif_pay *)slot.outpacketq[0].data = a; }
-		else if (IN_MEMBER(off, outpacketq[1].data)) { struct verif_pay a; *(struct verif_pay *)slot.outpacketq[1].data = a; }
-		else if (IN_MEMBER(off, outpacketq[2].data)) { struct verif_pay a; *(struct verif_pay *)slot.outpacketq[2].data = a; }
-		else if (IN_MEMBER(off, outpacketq[3].data)) { struct verif_pay a; *(struct verif_pay *)slot.outpacketq[3].data = a; }
-		else if (IN_MEMBER(off, dnscache_answer[0])) { struct verif_ans a; *(struct verif_ans *)slot.dnscache_answer[0] = a; }
-		else if (IN_MEMBER(off, dnscache_answer[1])) { struct verif_ans a; *(struct verif_ans *)slot.dnscache_answer[1] = a; }
-		else if (IN_MEMBER(off, dnscache_answer[2])) { struct verif_ans a; *(struct verif_ans *)slot.dnscache_answer[2] = a; }
-		else if (IN_MEMBER(off, dnscache_answer[3])) { struct verif_ans a; *(struct verif_ans *)slot.dnscache_answer[3] = a; }
+		else if (IN_MEMBER(off, inpacket.data)) verif_any_payload(&slot.inpacket);
+		else if (IN_MEMBER(off, outpacket.data)) verif_any_payload(&slot.outpacket);
+		else if (IN_MEMBER(off, outpacketq[0].data)) verif_any_payload(&slot.outpacketq[0]);
+		else if (IN_MEMBER(off, outpacketq[1].data)) verif_any_payload(&slot.outpacketq[1]);
+		else if (IN_MEMBER(off, outpacketq[2].data)) verif_any_payload(&slot.outpacketq[2]);
+		else if (IN_MEMBER(off, outpacketq[3].data)) verif_any_payload(&slot.outpacketq[3]);
+		else if (IN_MEMBER(off, dnscache_answer[0])) ANY_ROW(0)
+		else if (IN_MEMBER(off, dnscache_answer[1])) ANY_ROW(1)
+		else if (IN_MEMBER(off, dnscache_answer[2])) ANY_ROW(2)
+		else if (IN_MEMBER(off, dnscache_answer[3])) ANY_ROW(3)
 		else if (n <= 4 && IN_MEMBER(off, qmemping_cmc)) { size_t k; for (k = 0; k < 4; k++) if (k < n) ((char *)dst)[k] = ((const char *)src)[k]; }
 		else if (n <= 4 && IN_MEMBER(off, qmemdata_cmc)) { size_t k; for (k = 0; k < 4; k++) if (k < n) ((char *)dst)[k] = ((const char *)src)[k]; }
 		else __CPROVER_assert(0, "memcpy into a session member that has no model");
@@ -246,7 +252,8 @@ static void verif_stub_write_dns(int fd, struct query *q, const char *data, int 
 	for (i = 0; i < 12; i++)
 		g_pay[i] = i < datalen ? (unsigned char)data[i] : 0;
 }
-#define PAY_IS(lit) (g_paylen == (int)sizeof(lit) - 1 && memcmp(g_pay, lit, sizeof(lit) - 1) == 0)
+#define PB(lit, i) ((i) >= sizeof(lit) - 1 || g_pay[i] == (unsigned char)(lit)[(i) < sizeof(lit) - 1 ? (i) : 0])
+#define PAY_IS(lit) (g_paylen == (int)sizeof(lit) - 1 && PB(lit, 0) && PB(lit, 1) && PB(lit, 2) && PB(lit, 3) && PB(lit, 4) && PB(lit, 5) && PB(lit, 6) && PB(lit, 7) && PB(lit, 8))
 
 /* ---- single-slot state --------------------------------------------------------------------- */
 struct tun_user slot;
@@ -402,5 +409,76 @@ void h_cmd_guarded(void)
 #else
 	__CPROVER_assert(slot.fragsize == s0.fragsize, "only N changes the fragment size");
 #endif
+	VERIF_REACH();
+}
+
+/* ---- downstream fragments (C15, C14, C01 transfer clause) ---------------------------------------- */
+void h_send_chunk(void)
+{
+	any_server_state();
+	struct query *q = nondet_bool() ? &slot.q : &slot.q_sendrealsoon;   /* the two queries a session may hold */
+	__CPROVER_assume(q->id != 0);                                      /* obligation at every call site, see dispatcher groups */
+	int F = slot.fragsize, len0 = slot.outpacket.len, off0 = slot.outpacket.offset, resent0 = slot.outfragresent;
+	int frag0 = slot.outpacket.fragment, qf0 = slot.outpacketq_filled;
+	unsigned short id0 = q->id, id2 = q->id2;
+	int r = send_chunk_or_dataless(8, 0, q);
+	int datalen = g_paylen - 2;
+	/* C14: exactly one answer for the held query, one more for a remembered duplicate */
+	__CPROVER_assert(g_answers == 1 + (id2 != 0), "send_chunk_or_dataless emits one answer, plus one for a remembered duplicate");
+	__CPROVER_assert(g_ans_id[0] == id0 && (id2 == 0 || g_ans_id[1] == id2), "the answers carry the ids of the held query and of its duplicate");
+	__CPROVER_assert(q->id == 0, "the held query is consumed");
+	/* C15: never more payload than the negotiated fragment size */
+	__CPROVER_assert(datalen >= 0 && datalen <= F && datalen <= 4094, "payload after the 2-byte header is at most the fragment size");
+	__CPROVER_assert(g_tun_writes == 0 && g_sendto == 0, "no tun write, no raw send");
+	__CPROVER_assert(SESSION_WF(slot), "the session invariant is preserved");
+	__CPROVER_assert(r == 0 || r == 1, "result is 0 or 1");
+	/* header: bit 0 of byte 1 = last-fragment flag, bits 1..4 = fragment number */
+	if (resent0 <= 5 && len0 > 0) {
+		__CPROVER_assert(datalen == (F < len0 - off0 ? F : len0 - off0) || datalen == 4094, "payload is min(fragment size, remaining bytes)");
+		__CPROVER_assert((g_pay[1] & 1) == (off0 + datalen == len0), "last-fragment flag is set exactly on the final fragment");
+		__CPROVER_assert(((g_pay[1] >> 1) & 15) == (frag0 & 15), "fragment number field is the session's fragment counter");
+	}
+	__CPROVER_assert(len0 > 0 || qf0 > 0 || datalen == 0, "nothing to send => dataless answer");
+	VERIF_REACH();
+}
+
+void h_downstream_ack(void)
+{
+	any_server_state();
+	int seq = nondet_int(), frag = nondet_int();
+	int len0 = slot.outpacket.len, off0 = slot.outpacket.offset, sent0 = slot.outpacket.sentlen, qf0 = slot.outpacketq_filled;
+	char frag0 = slot.outpacket.fragment, seq0 = slot.outpacket.seqno;
+	process_downstream_ack(0, seq, frag);
+	_Bool match = len0 > 0 && seq0 == seq && frag0 == frag;
+	__CPROVER_assert(match || (slot.outpacket.len == len0 && slot.outpacket.offset == off0 && slot.outpacket.fragment == frag0 && slot.outpacket.seqno == seq0), "a non-matching ack changes nothing");
+	__CPROVER_assert(!match || off0 + sent0 >= len0 || (slot.outpacket.offset == off0 + sent0 && slot.outpacket.fragment == (char)(frag0 + 1) && slot.outpacket.len == len0), "a matching ack advances by the bytes sent and numbers the next fragment consecutively");
+	__CPROVER_assert(!match || off0 + sent0 < len0 || qf0 > 0 || (slot.outpacket.len == 0 && slot.outpacket.offset == 0), "the packet is finished when everything was acknowledged");
+	__CPROVER_assert(g_answers == 0 && g_tun_writes == 0 && SESSION_WF(slot), "no emission; invariant preserved");
+	VERIF_REACH();
+}
+
+void h_outpacket_queue(void)
+{
+	any_server_state();
+	static char data[64 * 1024];
+	int datalen = nondet_int();
+	__CPROVER_assume(datalen >= 0 && datalen <= 65536);
+	int qf0 = slot.outpacketq_filled, next0 = slot.outpacketq_nexttouse;
+	char seq0 = slot.outpacket.seqno;
+	if (nondet_bool()) {
+		int r = save_to_outpacketq(0, data, datalen);
+		__CPROVER_assert(r == (qf0 < OUTPACKETQ_LEN), "save_to_outpacketq succeeds exactly when the queue has room");
+		__CPROVER_assert(slot.outpacketq_filled == qf0 + r && slot.outpacketq_nexttouse == next0, "one more entry, read position unchanged");
+		__CPROVER_assert(!r || slot.outpacketq[(next0 + qf0) % OUTPACKETQ_LEN].len == datalen, "the entry is stored behind the existing ones with its length");
+	} else if (nondet_bool()) {
+		int r = get_from_outpacketq(0);
+		__CPROVER_assert(r == (qf0 > 0), "get_from_outpacketq succeeds exactly when something is queued");
+		__CPROVER_assert(!r || (slot.outpacketq_filled == qf0 - 1 && slot.outpacketq_nexttouse == (next0 + 1) % OUTPACKETQ_LEN), "the oldest entry is consumed");
+		__CPROVER_assert(!r || (slot.outpacket.offset == 0 && slot.outpacket.fragment == 0 && slot.outpacket.sentlen == 0 && slot.outpacket.seqno == ((seq0 + 1) & 7) && slot.outfragresent == 0), "a new downstream packet starts at fragment 0, offset 0, next sequence number");
+	} else {
+		start_new_outpacket(0, data, datalen);
+		__CPROVER_assert(slot.outpacket.len == datalen && slot.outpacket.offset == 0 && slot.outpacket.fragment == 0 && slot.outpacket.sentlen == 0 && slot.outpacket.seqno == ((seq0 + 1) & 7), "start_new_outpacket: exact length, fragment 0, offset 0, next sequence number");
+	}
+	__CPROVER_assert(SESSION_WF(slot) && g_answers == 0, "invariant preserved, nothing emitted");
 	VERIF_REACH();
 }
